@@ -21,6 +21,7 @@ import "errors"
 // List execution errors
 var (
 	ErrOutOfGas                 = errors.New("out of gas")
+	ErrAdminCaller              = errors.New("admin precompile: caller is not the admin contract")
 	ErrCodeStoreOutOfGas        = errors.New("contract creation code storage out of gas")
 	ErrDepth                    = errors.New("max call depth exceeded")
 	ErrTraceLimitReached        = errors.New("the number of logs reached the specified limit")
